@@ -168,7 +168,7 @@ func step(r *vrt.Run, ref *twin, suts []*sut, i inv) {
 		want, wantNil, wantErr = expected(i.conv, reply, err)
 	}
 	refDump := dump(ref.s)
-	if i.conv == "pipe2" {
+	if strings.HasPrefix(i.conv, "pipe2") {
 		var parts []string
 		anyErr := false
 		for _, c := range i.raw {
@@ -192,13 +192,13 @@ func step(r *vrt.Run, ref *twin, suts []*sut, i inv) {
 	}
 	for _, u := range suts {
 		name, args := i.m, i.args
-		if i.conv == "pipe" || i.conv == "blpop" || i.conv == "pipe2" {
+		if i.conv == "pipe" || i.conv == "blpop" || strings.HasPrefix(i.conv, "pipe2") {
 			got, gotErr := special(u, i)
 			if wantErr != nil {
 				if gotErr == nil || !strings.Contains(gotErr.Error(), wantErr.Error()) {
 					r.Failf("%s: %v returned (%s, %v); the raw commands fail with %q", u.name, i, got, gotErr, wantErr)
 				}
-			} else if gotErr != nil || ((i.conv == "blpop" || i.conv == "pipe2") && got != want) {
+			} else if gotErr != nil || ((i.conv == "blpop" || strings.HasPrefix(i.conv, "pipe2")) && got != want) {
 				r.Failf("%s: %v returned (%s, %v); the raw commands %v answer %s", u.name, i, got, gotErr, i.raw, want)
 			}
 			if d := u.dump(); d != refDump {
@@ -263,9 +263,15 @@ func special(u *sut, i inv) (string, error) {
 		}
 		return "", rds.Pipelined(fn)
 	}
-	if i.conv == "pipe2" {
+	if strings.HasPrefix(i.conv, "pipe2") {
 		var cmds []red.Cmder
 		fn := func(p redis.Pipeliner) error {
+			if i.conv == "pipe2b" {
+				// the middle command is refused on arrival (wrong number of arguments): in a plain
+				// pipeline that is this command's own failure, its neighbours take effect
+				cmds = []red.Cmder{p.Set(ctx, "p3", "v", 0), p.Do(ctx, "GET"), p.Incr(ctx, "p")}
+				return nil
+			}
 			cmds = []red.Cmder{p.Get(ctx, "nokey"), p.Incr(ctx, "p"), p.HGet(ctx, "h", "f1"), p.LPop(ctx, "nokey"), p.Set(ctx, "p2", "v", 0), p.Incr(ctx, "h")}
 			return nil
 		}
@@ -649,7 +655,7 @@ func perMethodBreaker() {
 			if len(i.raw) == 1 && i.raw[0] == "none" {
 				continue // size 0: answered without contacting the server
 			}
-			if i.conv == "pipe2" {
+			if strings.HasPrefix(i.conv, "pipe2") {
 				continue // the plain pipeline stands for pipelines here
 			}
 			for _, kind := range []string{"nil", "canceled", "error"} {
